@@ -186,9 +186,11 @@ impl World {
 		self.oracle.last_fee.retain(|k, _| k.0 != n);
 		self.oracle.last_bump_rate.retain(|k, _| k.0 != n);
 		let node = &self.nodes[n];
+		let mut inherited: Vec<([u8; 32], bool)> = Vec::new();
 		let (mgr_bytes, mon_bytes): (Option<Vec<u8>>, Vec<([u8; 32], Vec<u8>)>) = {
 			let mut d = node.disk.lock().unwrap();
 			d.loaded_generation = d.manager_generation;
+			inherited = d.manager_pending_terminal.clone();
 			(
 				d.manager.clone(),
 				d.chans
@@ -296,6 +298,7 @@ impl World {
 		}
 		self.nodes[n].live = Some(Live { manager, monitor, watch, persister });
 		self.nodes[n].incarnation += 1;
+		self.nodes[n].inherited_terminal = inherited;
 		self.nodes[n].watch_cursor = 0;
 		self.nodes[n].outdated_chans.clear();
 		let lg = self.nodes[n].disk.lock().unwrap().loaded_generation;
